@@ -46,6 +46,6 @@ def main(chk):
 MANIFEST = {
     'category': 'proof',
     'technique': 'Coq: per format, decoding any byte list with fuel linear in its length never runs out of fuel (assembled by exact from the wire-layer totality lemmas), every exceptional outcome is an Err class the Decode boundary recovers, step and allocation-request counts of instrumented models are linear in the input length with the caps of decInferLen / usableByteSlice / MaxInitLen (containerLenNil from Gen/Consts.v; decInferLen / usableByteSlice written by hand, proved equal on their whole int64/uint64 domain to the functions translated from the current source on every run (Gen/Leaf2.v) and also tied by a leaf correspondence stream); vm_compute correspondence of outcome class and NumBytesRead on hostile inputs; API-level oracle in subprocess workers (address-space limit, stack cap, watchdog) over format x destination x options x transport with hostile lengths in every length position, truncations, byte flips, random bytes and all 65792 one- and two-byte inputs',
-    'text': 'PARTIAL. Proved on the models (every byte list, option vector): C02_*_terminates (fuel K*(len+1) suffices, never OutOfFuel) for cbor, msgpack, simple, binc on the interface{} path and the skip/Raw walker; C02_only_recoverable; C02_alloc (allocation requests of every run tree satisfying the decoder invariants <= MaxDepth*max(1024,MaxInitLen)*U + (KL+64+13U)*len, whatever lengths are claimed); C02_alloc_src_tie (the decInferLen / usable_len the statement of C02_alloc is written with equal, for every int64/uint64 argument, the Gallina terms srcgen re-translates from the Go source of decInferLen / usableByteSlice on every run, which never divide by zero nor panic on a slice bound: a behaviour-changing edit of either function breaks this obligation); C02_walker_steps_partial (a step-counting skeleton of the recursive walkers takes <= 4*len+2 steps for EVERY progressing head parser), C02_msgpack_walker_steps (the skeleton instantiated with the head parser of the msgpack skip walker returns exactly what the msgpack wire model skip returns, for every input, entry depth and option vector, in <= 4*len+2 steps; cbor, simple, binc are not instantiated: their wire models expose fuel, not steps); C02_json_terminates / C02_json_terminates_anyleaf (json, FULL on the wire model Wire/Json.v: Decode(&interface{}) with the same fuel K*(len+1), a decode call from every tokenizer state / depth / position incl. map keys and the DecodeStringAsBytes key read, sequences of Decode calls on one Decoder, the skip scanner and Raw capture never run out of fuel, for every leaf implementation with a total string decoder and unconditionally for the C09 string code, i.e. the leaf the Wjson correspondence runs), C02_only_recoverable_json, C02_json_skip_terminates_partial (older, skip scanner only). The model decides termination, step and allocation-request COUNTS; real time, GC, resident memory, the panic->error recover and memory safety of unsafe are runtime and are only observed by the harness. Typed destinations and io.Reader: harness oracle only; the json theorems are over Wire/Json.v, whose correspondence with the implementation is run by the check Wjson (this check runs json through the API-level oracle only).',
+    'text': 'PARTIAL. Proved on the models (every byte list, option vector): C02_*_terminates (fuel K*(len+1) suffices, never OutOfFuel) for cbor, msgpack, simple, binc on the interface{} path and the skip/Raw walker; C02_only_recoverable; C02_alloc (allocation requests of every run tree satisfying the decoder invariants <= MaxDepth*max(1024,MaxInitLen)*U + (KL+64+13U)*len, whatever lengths are claimed); C02_alloc_src_tie (the decInferLen / usable_len the statement of C02_alloc is written with equal, for every int64/uint64 argument, the Gallina terms srcgen re-translates from the Go source of decInferLen / usableByteSlice on every run, which never divide by zero nor panic on a slice bound: a behaviour-changing edit of either function breaks this obligation); C02_walker_steps_partial (a step-counting skeleton of the recursive walkers takes <= 4*len+2 steps for EVERY progressing head parser), C02_msgpack_walker_steps / C02_simple_walker_steps / C02_binc_walker_steps / C02_cbor_walker_steps (the skeleton instantiated with the head parser of each binary format skip walker - leaves consumed by the wire model own leaf code - returns what that wire model skip returns, for every input, entry depth and option vector, in <= 4*len+2 steps: exactly for msgpack and simple; for binc the rest-of-input projection from every starting symbol table, the table does not steer the walker; for cbor with tags as one-value containers, indefinite lengths closed by the break byte and the chunk loop of indefinite strings inside the leaf, equal up to one characterised error-class difference - an array/map head with reserved additional information met at the depth bound is EDepth in the model, which like the code does depthIncr before reading the length, and EBadDesc in the skeleton: C02_cbor_walker_exact_refuted - and exactly equal whenever the model outcome is not the depth error); C02_json_terminates / C02_json_terminates_anyleaf (json, FULL on the wire model Wire/Json.v: Decode(&interface{}) with the same fuel K*(len+1), a decode call from every tokenizer state / depth / position incl. map keys and the DecodeStringAsBytes key read, sequences of Decode calls on one Decoder, the skip scanner and Raw capture never run out of fuel, for every leaf implementation with a total string decoder and unconditionally for the C09 string code, i.e. the leaf the Wjson correspondence runs), C02_only_recoverable_json, C02_json_skip_terminates_partial (older, skip scanner only). The model decides termination, step and allocation-request COUNTS; real time, GC, resident memory, the panic->error recover and memory safety of unsafe are runtime and are only observed by the harness. Typed destinations and io.Reader: harness oracle only; the json theorems are over Wire/Json.v, whose correspondence with the implementation is run by the check Wjson (this check runs json through the API-level oracle only).',
     'note': 'Findings made by this check and repaired in /repo: F02-2 (negative MaxInitLen lifted every cap of the io transport), F02-3 (decInferLen did not cap zero-size element types: map buckets sized by the claimed length); F10-1 (cbor tag 4/5 head compared with 82 decimal) surfaced as a correspondence mismatch here and was repaired by the cbor wire check. K0 is large by design of the code (64 MB usableByteSlice cap; MaxDepth * 1024 elements pre-sized per open container): the allocation oracle flags only gross violations (an uncapped claimed length). Trusted: Coq kernel, hand-written models, translator for decInferLen, harness and its constants.',
 }
